@@ -51,7 +51,7 @@ func (c05) Runs(t Tier) int {
 }
 func (c05) RecordWidths() map[string]int { return map[string]int{"ops": 3} }
 func (c05) RequiredProbes() []string {
-	return []string{"range-starts-on-boundary", "range-ends-on-boundary", "range-inside-one-chunk", "range-empty", "range-whole-file", "reader-history", "subset-traversal", "lookup-member", "lookup-nonmember", "hamt-depth>=3", "path-through-hamt", "path-to-multiblock-file", "path-to-missing-entry", "linksystem-with-node-reifier", "starved-ok"}
+	return []string{"range-starts-on-boundary", "range-ends-on-boundary", "range-inside-one-chunk", "range-empty", "range-whole-file", "reader-history", "abandoned-seek", "subset-traversal", "lookup-member", "lookup-nonmember", "hamt-depth>=3", "path-through-hamt", "path-to-multiblock-file", "path-to-missing-entry", "linksystem-with-node-reifier", "starved-ok"}
 }
 
 type c05Scenario struct {
@@ -143,6 +143,7 @@ func (c05) runFile(ts *tape.Set, tier Tier) *Result {
 		type step struct {
 			a, b   int64
 			whence int
+			decoy  int64 // >= 0: an abandoned Seek to this offset comes first
 		}
 		var steps []step
 		union := map[string]bool{}
@@ -168,7 +169,18 @@ func (c05) runFile(ts *tape.Set, tier Tier) *Result {
 			if b-a > 600 {
 				b = a + 1 + (b-a)%600
 			}
-			steps = append(steps, step{a, b, w})
+			decoy := int64(-1)
+			if dr := ops.Raw(); dr%3 == 0 {
+				decoy = pickEdgeH(dr >> 8)
+				if decoy < 0 {
+					decoy = 0
+				}
+				if decoy > L {
+					decoy = L
+				}
+				res.probe("abandoned-seek")
+			}
+			steps = append(steps, step{a, b, w, decoy})
 			for k := range model.Allowed(a, b) {
 				union[k] = true
 			}
@@ -213,6 +225,17 @@ func (c05) runFile(ts *tape.Set, tier Tier) *Result {
 						whence, off = io.SeekCurrent, stp.a-pos
 					default:
 						whence, off = io.SeekEnd, stp.a-L
+					}
+					if stp.decoy >= 0 {
+						// the client first seeks somewhere else and changes its mind
+						// before reading: a position that is never read from needs no block
+						if _, err := rs.Seek(stp.decoy, io.SeekStart); err != nil {
+							failClass, failMsg = "err", fmt.Sprintf("step %d: decoy seek: %v", i, err)
+							return
+						}
+						if whence == io.SeekCurrent {
+							off = stp.a - stp.decoy
+						}
 					}
 					if _, err := rs.Seek(off, whence); err != nil {
 						failClass, failMsg = "err", fmt.Sprintf("step %d: seek: %v", i, err)
